@@ -28,6 +28,31 @@ func die(err error) {
 	}
 }
 
+func pointStmt(what string) ast.Stmt {
+	return &ast.ExprStmt{X: &ast.CallExpr{
+		Fun:  &ast.SelectorExpr{X: ast.NewIdent("sync"), Sel: ast.NewIdent("Point")},
+		Args: []ast.Expr{&ast.BasicLit{Kind: token.STRING, Value: strconv.Quote(what)}},
+	}}
+}
+
+// chanStmt: a send statement, a select, or a simple statement containing a channel receive (not looking into nested blocks).
+func chanStmt(st ast.Stmt) bool {
+	switch s := st.(type) {
+	case *ast.SendStmt, *ast.SelectStmt:
+		return true
+	case *ast.ExprStmt, *ast.AssignStmt:
+		found := false
+		ast.Inspect(s, func(n ast.Node) bool {
+			if u, ok := n.(*ast.UnaryExpr); ok && u.Op == token.ARROW {
+				found = true
+			}
+			return !found
+		})
+		return found
+	}
+	return false
+}
+
 func main() {
 	repo := flag.String("repo", "/repo", "repository root")
 	harness := flag.String("harness", "/verif/harness", "harness dir")
@@ -64,6 +89,39 @@ func main() {
 						Args: []ast.Expr{&ast.BasicLit{Kind: token.STRING, Value: strconv.Quote(fd.Name.Name)}},
 					}}
 					fd.Body.List = append([]ast.Stmt{call}, fd.Body.List...)
+					// the channel based pools have no sync call to hook: a scheduling point before and after every
+					// statement that sends to or receives from a channel (incl. select), in every nested block
+					ast.Inspect(fd.Body, func(n ast.Node) bool {
+						var list *[]ast.Stmt
+						switch b := n.(type) {
+						case *ast.BlockStmt:
+							list = &b.List
+						case *ast.CaseClause:
+							list = &b.Body
+						case *ast.CommClause:
+							list = &b.Body
+						}
+						if list == nil {
+							return true
+						}
+						var out []ast.Stmt
+						if _, isComm := n.(*ast.CommClause); isComm {
+							out = append(out, pointStmt(fd.Name.Name+":chan-done")) // after the communication of this select case
+						}
+						for _, st := range *list {
+							_, isSel := st.(*ast.SelectStmt)
+							switch {
+							case isSel:
+								out = append(out, pointStmt(fd.Name.Name+":chan"), st) // (a point after a terminating select would be unreachable)
+							case chanStmt(st):
+								out = append(out, pointStmt(fd.Name.Name+":chan"), st, pointStmt(fd.Name.Name+":chan-done"))
+							default:
+								out = append(out, st)
+							}
+						}
+						*list = out
+						return true
+					})
 				}
 			}
 			if !found {
